@@ -294,10 +294,11 @@ structure TallyWF (V : Pid → Chain → Prop) (t : Table) (q : Tally) : Prop wh
   /-- every sender is filed under exactly one chain -/
   covered : ∀ x ∈ q.senders, ∃ sup ∈ q.support, x ∈ sup.signers
   chains : (q.support.map (·.chain)).Nodup
+  strongOk : ∀ sup ∈ q.support, sup.strong = strongQ t sup.power
 
 
 theorem TallyWF_empty (V : Pid → Chain → Prop) (t : Table) : TallyWF V t {} :=
-  ⟨by simp, by simp, by simp, by simp, by simp, rfl, by simp, by simp, by simp⟩
+  ⟨by simp, by simp, by simp, by simp, by simp, rfl, by simp, by simp, by simp, by simp⟩
 
 theorem upsertSupport_mem (l : List Support) (s s' : Support) (h : s' ∈ upsertSupport l s) : s' = s ∨ s' ∈ l := by
   induction l with
@@ -358,7 +359,7 @@ theorem receive_wf {V : Pid → Chain → Prop} (t : Table) (q q' : Tally) (send
         { chain := c, power := ((q.findSupport c).getD { chain := c, power := 0, signers := [], strong := false }).power + t.power sender,
           signers := ((q.findSupport c).getD { chain := c, power := 0, signers := [], strong := false }).signers ++ [sender],
           strong := strongQ t (((q.findSupport c).getD { chain := c, power := 0, signers := [], strong := false }).power + t.power sender) } s'
-      refine ⟨?_, ?_, ?_, ?_, ?_, ?_, ?_, ?_, ?_⟩
+      refine ⟨?_, ?_, ?_, ?_, ?_, ?_, ?_, ?_, ?_, ?_⟩
       · intro sup hsup
         rcases upsertSupport_mem _ _ _ hsup with rfl | hsup
         · simp only [if_true]
@@ -418,6 +419,10 @@ theorem receive_wf {V : Pid → Chain → Prop} (t : Table) (q q' : Tally) (send
         · refine ⟨_, (hmem _).2 (Or.inl rfl), ?_⟩
           simp
       · exact upsert_chains_nodup q.support hwf.chains _
+      · intro sup hsup
+        rcases upsertSupport_mem _ _ _ hsup with rfl | hsup
+        · rfl
+        · exact hwf.strongOk sup hsup
 
 /-- what C03 asks of a reported decision's justification -/
 structure DecisionOK (V : Pid → Chain → Prop) (t : Table) (d : Just) : Prop where
